@@ -1,4 +1,4 @@
-package engines
+package partio
 
 import (
 	"bytes"
